@@ -107,7 +107,9 @@ Proof.
            | (let '(_, _) := ?x in _) = _ => destruct x eqn:?
            end;
     try (inversion H; subst; cbn; lia); try (apply IH in H; lia);
-    try (destruct err; inversion H; subst; cbn; lia).
+    try (destruct err; inversion H; subst; cbn; lia);
+    (* a skipped character: since /repo 914ba97 a skipped line break counts *)
+    try (apply IH in H; destruct (chr_is c "010"); lia).
 Qed.
 
 Theorem scan_token_line : forall st t st',
